@@ -656,7 +656,7 @@ def ref_content(kind, raw, options, inherited):
     if kind == 'meta':
         try:
             value = json.loads(value)
-        except ValueError:
+        except (ValueError, RecursionError):
             raise Reject('bad json')
 
     return value, len(lines), le
